@@ -31,6 +31,14 @@ for log in sys.argv[1:]:
         mp = os.path.join(d["dir"], "meta.json")
         if os.path.exists(mp):
             old = json.load(open(mp))
+            # a re-evaluation run with --no-tests keeps the repository-suite result of the earlier evaluation, and extra fields
+            if "tests" not in d:
+                for k in ("repository_suite_on_patched_copy", "repository_suite_still_passes"):
+                    meta["confirmed_by_me"][k] = old.get("confirmed_by_me", {}).get(k)
+                meta["confirmed_by_me"]["repository_suite_note"] = "suite result carried over from the first evaluation of this change (this re-evaluation only re-ran the demo and the checks)"
+            for k, v in old.items():
+                if k not in meta and k != "history":
+                    meta[k] = v
             # keep the history of earlier evaluations (before checks were strengthened)
             hist = old.get("history", [])
             hist.append({"caught_by": old.get("caught_by"), "checks_run_quick_tier": old.get("checks_run_quick_tier")})
